@@ -378,8 +378,8 @@ pub fn replay_c05(v: &Value) -> Vec<Failure> {
 }
 
 pub fn run_c05(ctx: &Ctx) -> ! {
-    let n_truth = ctx.tier.pick(600_000u64, 30_000_000);
-    let n_raw = ctx.tier.pick(600_000u64, 30_000_000);
+    let n_truth = ctx.tier.pick(600_000u64, 120_000_000);
+    let n_raw = ctx.tier.pick(600_000u64, 120_000_000);
     let trans = refcpr::transitions();
     let trans = &trans;
     let mut st = parallel(|w, st| {
